@@ -391,6 +391,15 @@ def _counts_by_bool(prog, hf, R, bl):
                                 q = qq[0] if len(qq) == 1 else None
                             if q is None:
                                 continue
+                            if q.kind == "bin" and q.data["op"] in ("Ne", "Eq") and (q.data["op"] == "Ne") != neg:
+                                # `head.as_value() != 0` (or `!(x == 0)`): one side the constant zero, the other the bucket head
+                                from .model import const_val as _cv
+                                for x_, z_ in ((q.data["a"], q.data["b"]), (q.data["b"], q.data["a"])):
+                                    if _cv(z_) == 0 and x_.get("k") in ("cp", "mv"):
+                                        xs = value_origins(prog, hf, x_, q.block)
+                                        if xs and bl and all(is_call_to(prog, hf, y, R.need("BUCKET_LOAD")) for y in xs):
+                                            adds.append(b_)
+                                continue
                             is_zero_call = q.kind == "call" and (q.data.get("callee") or "").rsplit("::", 1)[-1] in ("is_zero", "_is_zero") and q.data.get("args")
                             if is_zero_call and neg:
                                 xs = value_origins(prog, hf, q.data["args"][0], q.block)
